@@ -576,6 +576,19 @@ _ADD19 = {
     "C15": " Histories include runs of 99..257 (0, nil) reads or zero-length polls.",
     "C18": " An early-shutdown kind calls Shutdown before Start (optionally a late Start afterwards): only the final refresh, its error returned, nothing later.",
 }
+_ADD20 = {
+    "C08": " Well-formed lines of 65..120 KiB are parsed with caller buffers whose capacity admits them.",
+    "C09": " A bulk kind sets 1000..140000 entries, deletes all but every k-th, optionally sets them again, with exact books after every phase.",
+    "C12": " net.IP values include well-formed addresses with extra bytes behind them or cut short.",
+    "C15": " A far-read kind reads limits around 2^31 and 2^32 in full (count-based oracle) and checks the limit carried by the errors that follow.",
+    "C16": " The Op of the top-level *url.Error varies (Get, parse, Post, empty, ...).",
+    "C17": " A relcancel step releases a holder's slot and cancels a waiter's context back to back.",
+    "C18": " A quarter of the signal cases let the same handler handle a second shutdown.",
+    "C20": " Handlers may panic with http.ErrAbortHandler after answering with an explicit status.",
+}
+for _pid, _lt in _ADD20.items():
+    PROPS[_pid]["level_text"] += _lt
+
 for _pid, _lt in _ADD19.items():
     PROPS[_pid]["level_text"] += _lt
 
